@@ -924,7 +924,7 @@ func c12DegenerateProfiles(c *Ctx, ridMsg, ridConn string) {
 				}
 				seenConn[key] = true
 				guarded := false
-				for _, cd := range w.Conds() {
+				for _, cd := range append(w.Conds(), a.Under...) {
 					cd.Cond.Walk(func(q *Sym) {
 						if q.K != symBin {
 							return
